@@ -37,7 +37,9 @@ def gen(ctx, q):
                 # ties between frames: the PEAK position must not depend on the call boundaries
                 # the per-channel maximum occurs several times (first in the first third of the signal)
                 top = "3fc00000" if t == "f" else "3ff8000000000000"
-                for fr in sorted(set([n // 3, (2 * n) // 3, n - 1])):
+                # (for half of the groups the first occurrence lies behind the first staging chunk of a single large call: 2n/3 and n-1 only)
+                first_late = vlib.dhash((f, ch, n, "late")) % 2 == 0
+                for fr in sorted(set(([] if first_late else [n // 3]) + [(2 * n) // 3, n - 1])):
                     for c in range(ch):
                         vals[fr * ch + c] = top
             group += 1
